@@ -1065,6 +1065,8 @@ func runC05(r *Run, rng *Rng, tier string) error {
 	if err != nil {
 		return err
 	}
+	// NewRng(seed) states of consecutive seeds are one step apart: fork once so that seeds give unrelated runs
+	rng = rng.Fork()
 	r.Meta.Rule = "path functions: every string over {/ . a} up to length 6 (8 thorough) + adversarial spellings; file systems: random trees (names qa,qb,qc,qrt,qrt-evil,qk.yaml,qx; " +
 		"links relative/absolute/dangling/looping/with dots and trailing slashes) in memory and on disk; loader: structured world (3 stacked roots, sibling base, outside directory with canary files, " +
 		"links in/out) x every path expression of <=3 (model) / <=4 (reference) atoms (<=6 thorough) over {., .., dir, file, link-in-dir, link-out-dir, link-in-file, link-out-file, /abs-root, /abs-outside} x depth 1..3 x {Load, New}; " +
